@@ -111,9 +111,15 @@ func genC03(g *Gen, tier string, idx int) *wire.Scenario {
 	for in.Len() < 8 {
 		if x.Core {
 			// whole bound sequences and neutral keys only: the plainest claim of the statement
-			if g.P(75) {
+			switch {
+			case g.P(65):
 				in.WriteString(Pick(g, seqs))
-			} else {
+			case g.P(40) && x.Keymap != "vi-command":
+				// a bound sequence broken off before its last key, by a neutral key (in vi command mode
+				// the pinned tree loses the commands typed after it: left to the other batch)
+				s := Pick(g, seqs)
+				in.WriteString(s[:g.Range(1, len(s)-1)] + "b")
+			default:
 				in.WriteString("b")
 			}
 			continue
@@ -437,7 +443,18 @@ func execC03(x *Ctx, sc *wire.Scenario) *wire.Result {
 		if xx.Local != "" {
 			km += "+" + xx.Local
 		}
-		return violation(res, "MISMATCH", "C03.dispatch-matches-reference", batch+"dispatch:"+cls+macro+":"+km,
+		sig := batch + "dispatch:" + cls + macro + ":" + km
+		if !xx.Core && (macro != "" || km != "emacs") {
+			// Tables in which a bound sequence is a prefix of another, with partial and unbound
+			// sequences typed: the dispatcher of the pinned tree fails them in the vi keymaps, and
+			// with macro binds in every keymap, missing and extra commands alike (one defect family:
+			// what is remembered and re-dispatched when a longer match is ruled out, and macro keys
+			// queued behind the keys already read). Named by keymap there; overlapping tables
+			// without macros in the emacs keymap, which the tree dispatches correctly, and the
+			// prefix-free batch keep the detail.
+			sig = "dispatch:overlapping-table" + macro + ":" + km
+		}
+		return violation(res, "MISMATCH", "C03.dispatch-matches-reference", sig,
 			fmt.Sprintf("keymap %s, binds %v, typed %q: probes fired %v; the reference accepts %v", xx.Keymap, tbl, string(xx.Input), log, alts))
 	}
 	// no probe may fire while the keys typed so far are only a proper prefix (judged under one-byte-per-read)
